@@ -550,7 +550,7 @@ def split_outs(s):
 
 def build_io(shapes_sexp, cases, mres, n_sample, seed):
     rng = random.Random(seed * 139 + 5)
-    ls = [l for l in cases if len(l) < 1500 and l.split(' ')[2] in ('recv', 'arecv', 'send', 'asend')]
+    ls = [l for l in cases if len(l) < 1500 and l.split(' ')[2] in ('recv', 'arecv', 'send', 'asend') and ' ~ ' not in l]
     rng.shuffle(ls)
     sample = ls[:n_sample]
     used = sorted(set(l.split(' ')[3] for l in sample))
